@@ -64,7 +64,7 @@ func init() {
 			ruleSentinel(c, sn, "ints")
 			ms := ruleMakeSize(c, filesOf(c, "sortints.Complement", "sortints.Union", "sortints.NewSortedInts"))
 			ai := ruleArgIndex(c, "sortints")
-			ai.MinInst = 20
+			ai.MinInst = 5 // a floor against vacuity, not a census: helpers with their own cursors take indices out of the exported functions
 			return []*RuleResult{pure, ro, fr, ruleSwap(c, "SWAP", swapDoc, c17Swap, 7), mc, sc, sn, ms, ai}
 		},
 		controls: func(ctl *Ctx) []*RuleResult {
